@@ -57,6 +57,7 @@ class Ctx:
     def __init__(self, prefix, stats: Stats, qtimeout_ms=10000):
         self.solver = z3.Solver()
         self.solver.set("timeout", qtimeout_ms)
+        self.qtimeout_ms = qtimeout_ms
         self.prefix = prefix
         self.trace = []            # [(decision, alternative_open)]
         self.known = {}            # ast id -> decision   (ASTs kept alive in self.keep)
@@ -77,6 +78,11 @@ class Ctx:
         self._flush()
         t0 = time.perf_counter()
         r = self.solver.check(*extra)
+        if r == z3.unknown:
+            # most likely the per-query time limit under machine load: one retry with a generous limit
+            self.solver.set("timeout", 120000)
+            r = self.solver.check(*extra)
+            self.solver.set("timeout", self.qtimeout_ms)
         self.stats.solver_s += time.perf_counter() - t0
         self.stats.queries += 1
         return r
@@ -218,6 +224,9 @@ class Ctx:
         for name, v in self.vars.items():
             mv = model.eval(v, model_completion=True)
             out[name] = z3.is_true(mv) if z3.is_bool(v) else mv.as_long()
+        for name, base in getattr(self, "strvars", {}).items():
+            from .symstr import model_string
+            out[name] = model_string(base, model)
         return out
 
 
